@@ -248,12 +248,28 @@ func generateLoop(l *ast.AstLoop, offset int, state *GenState) ([]SearchInstruct
 	result := []SearchInstruction{}
 
 	current_offset := offset
+	// names declared by one copy of the body; every further copy declares the same names again,
+	// which must not be reported as a clash between two different declarations
+	declaredByCopy := []string{}
 	if l.Min > 0 && l.Name == "" {
 		for i := 0; i < l.Min; i++ {
+			for _, name := range declaredByCopy {
+				delete(state.variables, name)
+			}
+			knownBefore := make(map[string]bool, len(state.variables))
+			for name := range state.variables {
+				knownBefore[name] = true
+			}
 			// I kinda hate generating this everytime but I also hate the other way where we have to adjust offset values to keep pointers in the body lined up
 			body, gen_error := generateSearchInstruction(&l.Body, current_offset, state)
 			if gen_error != nil {
 				return []SearchInstruction{}, gen_error
+			}
+			declaredByCopy = declaredByCopy[:0]
+			for name := range state.variables {
+				if !knownBefore[name] {
+					declaredByCopy = append(declaredByCopy, name)
+				}
 			}
 			result = append(result, body...)
 			current_offset += len(body)
@@ -264,6 +280,9 @@ func generateLoop(l *ast.AstLoop, offset int, state *GenState) ([]SearchInstruct
 		return result, nil
 	}
 
+	for _, name := range declaredByCopy {
+		delete(state.variables, name)
+	}
 	body, gen_error := generateSearchInstruction(&l.Body, current_offset+1, state)
 	if gen_error != nil {
 		return []SearchInstruction{}, gen_error
